@@ -1,3 +1,66 @@
-(* C06 - placeholder while the invariant is built *)
-From Tramp Require Import Model.Base Model.Sys.
-Theorem C06_placeholder : True. Proof. exact I. Qed.
+(* C06 — every htlc_accepted call gets exactly one response; no input panics or hangs it.
+
+   "Every htlc_accepted invocation eventually yields exactly one well-formed response (continue, fail or resolve)
+    for arbitrary payload bytes, amounts and expiries and under every interleaving, provided the node's RPC keeps
+    answering (with results or errors). No request can make the handler panic, deadlock or stay unanswered, and HTLCs
+    of sets that never complete are answered no later than one MPP timeout after the plugin has read the payment's
+    stored state."
+
+   What is proved, for the trampoline path (classification of arbitrary bytes is a total function: C13/C18; the
+   non-trampoline answers are immediate):
+     exactly one   — an accepted HTLC is answered in the very step it arrives, or is held (C06_held_or_answered); answers
+                     go to ALL held HTLCs of the hash at once and the entry is dropped in the same step, so nobody is
+                     answered twice (C06_answered_together_once);
+     no panic      — no lifecycle ever panics (C06_no_panic);
+     no deadlock   — while HTLCs are held their lifecycle is either in the select! with a deadline at most one MPP
+                     timeout ahead, or awaits an rpc that is still live, so an rpc that "keeps answering" always moves it
+                     (C06_never_stuck); the two capacity-1 channels are written at most once per entry (Proofs/SysEntry),
+                     which is why [e_add]/[e_fail] never block;
+     deadline      — when the clock reaches the deadline every held HTLC is answered (C06_answered_at_deadline).
+   PARTIAL: "eventually" is stated as the absence of stuck states, not as a termination measure; RPC errors on reads are
+   the known-finding class kf_read_error (stored Pending + error from wait_payment reaches a todo!(): KF-A), excluded by
+   [hist_wf]; thread scheduling and real time are runtime (the correspondence runs the real handler deterministically). *)
+From Tramp Require Import Model.Base Model.Fee Model.Classify Model.Node Model.Provider Model.ProviderSys Model.Sys.
+From Tramp Require Import Proofs.SysBasics Proofs.SysShape Proofs.SysTheorems Proofs.SysTimers Proofs.SysReach Proofs.SysCalls Proofs.SysNode Proofs.SysSafety.
+
+Theorem C06_held_or_answered : forall c s h,
+  (exists en, entry_ (pl (fst (step c s (EvHtlc h)))) = Some en /\ In h (listeners en)) \/
+  (exists r, In (OResp (hid h) r) (snd (step c s (EvHtlc h)))).
+Proof. exact htlc_held_or_answered. Qed.
+
+Theorem C06_answered_together_once : forall c s ev,
+  resps (snd (step c s ev)) = [] \/
+  exists r, resps (snd (step c s ev)) = map (fun h => OResp (hid h) r) (held c s ev) /\ entry_ (pl (fst (step c s ev))) = None.
+Proof. exact step_same_resolution. Qed.
+
+Theorem C06_no_panic : forall c n t0 h0 a0 evs ev,
+  node_ok n -> hist_wf c (sys_start n t0 h0 a0) evs ->
+  let s := after c n t0 h0 a0 evs in
+  ~ In OPanic (snd (step c s ev)) /\ forall i x, nth_error (lcs (pl s)) i = Some x -> l_pc x <> PPanicked.
+Proof.
+  intros c n t0 h0 a0 evs ev Hn Hwf s. destruct (wreach_no_panic c s (after_wreach c n t0 h0 a0 evs Hn Hwf)) as (A & B).
+  split; [exact (B ev)|exact A].
+Qed.
+
+Theorem C06_never_stuck : forall c n t0 h0 a0 evs e,
+  node_ok n -> hist_wf c (sys_start n t0 h0 a0) evs ->
+  let s := after c n t0 h0 a0 evs in
+  entry_ (pl s) = Some e ->
+  exists i x, nth_error (lcs (pl s)) i = Some x /\ attached (l_pc x) = true /\
+    ((exists d, l_pc x = PSelect d /\ now s < d /\ d <= now s + mpp_ms c) \/
+     (awaits (l_pc x) <> [] /\ forall k, In k (awaits (l_pc x)) -> exists cl, nth_error (calls s) k = Some cl /\ live (c_st cl))).
+Proof. intros c n t0 h0 a0 evs e Hn Hwf. exact (never_stuck c _ e (after_wreach c n t0 h0 a0 evs Hn Hwf)). Qed.
+
+Theorem C06_answered_at_deadline : forall c s dt en i x dl,
+  entry_ (pl s) = Some en -> nth_error (lcs (pl s)) i = Some x -> l_pc x = PSelect dl -> dl <= now s + dt ->
+  resps (snd (step c s (EvTick dt))) = map (fun h => OResp (hid h) r_tramp_fail) (listeners en) /\
+  entry_ (pl (fst (step c s (EvTick dt)))) = None.
+Proof. intros c s dt en i x dl He Hx Hp Hd. destruct (tick_at_deadline c s dt en i x dl He Hx Hp Hd) as (A & B & _). auto. Qed.
+
+(* non-vacuity: an HTLC is held, its lifecycle awaits the live state fetch *)
+Example C06_nonvacuous :
+  let c := {| mpp_ms := 60000; pol := {| fee_base := 0; fee_ppm := 0; pol_delta := 40 |}; cltv_delta := 6; retry_for := 60 |} in
+  let h := {| hid := 7; blob := [1]; deliver := 10; inv_amount := Some 10; amt := 5; total := 10; expiry := 1000; rel := 100%Z |} in
+  let s := after c node0 0 0 0 [EvHtlc h] in
+  option_map listeners (entry_ (pl s)) = Some [h] /\ map l_pc (lcs (pl s)) = [PFetch 0] /\ map c_st (calls s) = [Unprocessed].
+Proof. vm_compute. repeat split. Qed.
